@@ -84,6 +84,17 @@ CLAIMS["C12"] = dict(
     technique="contract-based deductive verification: loop invariants + modular callee contracts on the real methods, VCs to z3",
     note=TRUST + " Options are assumed to satisfy validate() plus dt_init>0, max_solve_retries>=0, adaptive_window>=1. The 1e-10 floor on delta is part of the stated rule.")
 
+CLAIMS["C13"] = dict(
+    category="proof",
+    text="The real numba kernel source (loops cut by mechanically generated invariants whose side conditions are obligations) computes, for every "
+         "edge and component, the direct double sum of J[j,k]*a[j]/|c_i - r_j| over all sites; the real get_induced_vector_potential implements the Polyak "
+         "update and error = max over edges of |kernel - A_prev| / max(|A_next|, 1e-20); on the real update() the screening loop returns only when the "
+         "last error is below the tolerance, raises RuntimeError only when the budget is exhausted without convergence, and with screening off returns "
+         "the input potential after a single pass. The 'modest multiple of the tolerance' clause is a numerical bound and only covered by the bounded run.",
+    design_ref="DESIGN.md section 4 C13",
+    technique="contract-based deductive verification: generated reduction/map loop invariants on the kernel source, loop contract on update(), VCs to z3",
+    note=TRUST + " Precondition: no edge centre coincides with a site. The site average (bincount) is not under contract. Unit factor mu0/4pi K0/A0 xi^2 belongs to C08.")
+
 NA = {}
 
 checks = []
